@@ -296,13 +296,24 @@ class History:
         if st.name not in self.last_ok:
             # distinguish the case where the statement is needed only because a dependency on it was newly declared for an
             # already-built statement whose command line did not change (one known defect) from every other reason
-            outs = set(st.outs)
-            for c in self.man.sts.values():
-                if c.name == st.name or c.name not in self.last_ok:
+            # (transitively: the never-built statement may itself only be needed by other never-built statements)
+            seen, work = set(), [st]
+            while work:
+                cur = work.pop()
+                if cur.name in seen:
                     continue
-                ins, imps, oos = self.deps_of(c)
-                if outs & (set(ins) | set(imps) | set(oos)) and self.ok_deps.get(c.name) != self.deps_of(c) and self.ok_cmdline.get(c.name) == self.cmdline(c):
-                    return "its command never ran: it is needed through a dependency newly declared in the manifest for a command whose command line did not change"
+                seen.add(cur.name)
+                outs = set(cur.outs)
+                for c in self.man.sts.values():
+                    if c.name == cur.name:
+                        continue
+                    ins, imps, oos = self.deps_of(c)
+                    if not (outs & (set(ins) | set(imps) | set(oos))):
+                        continue
+                    if c.name not in self.last_ok:
+                        work.append(c)
+                    elif self.ok_deps.get(c.name) != self.deps_of(c) and self.ok_cmdline.get(c.name) == self.cmdline(c):
+                        return "its command never ran: it is needed through a dependency newly declared in the manifest for a command whose command line did not change"
             return "its command never ran"
         t = self.last_ok[st.name]
         cls = set()
